@@ -75,7 +75,67 @@ def must_fail(phrase, setting, enabled=None):
         return "bad-char"
     if classify(setting, enabled) is None:
         return "unknown-tag"
+    if yes_unsupported(setting):
+        return "unsupported-parameter"
     return None
+
+
+def yes_unsupported(setting):
+    """A $y$/$gy$ setting whose parameter field decodes completely and asks for
+    something crypt() cannot provide: a ROM (have & 8: crypt has no way to
+    supply one) or a hash upgrade (have & 4, g >= 1: "support temporarily
+    removed").  Such a setting describes a hash this library cannot compute and
+    must fail closed.  Returns the reason or None."""
+    if setting.startswith(b"$y$"):
+        pos = 3
+    elif setting.startswith(b"$gy$"):
+        pos = 4
+    else:
+        return None
+    for minv in (0, 1, 1):
+        d = yes_dec_uint(setting, pos, minv)
+        if not d:
+            return None
+        pos = d[1]
+    if setting[pos:pos + 1] == b"$":
+        return None
+    d = yes_dec_uint(setting, pos, 1)
+    if not d:
+        return None
+    have, pos = d
+    vals = {}
+    for bit, minv in ((1, 2), (2, 1), (4, 1), (8, 1)):
+        if have & bit:
+            d = yes_dec_uint(setting, pos, minv)
+            if not d:
+                return None
+            vals[bit], pos = d
+    if setting[pos:pos + 1] != b"$":
+        return None
+    if have & 8 and vals[8] <= 63:
+        return "rom"
+    if have & 4:
+        return "upgrade"
+    return None
+
+
+def gen_yes_unsupported(rng, method):
+    """a yescrypt-family setting that is well formed but asks for a ROM or a hash upgrade"""
+    fl = rng.choice([b"j", b"j", b"/"])
+    nl = rng.choice([2, 4, 6, 8, 12])
+    rr = rng.choice([1, 8, 32])
+    have = rng.choice([8, 8, 4, 12, 9, 10, 5, 15])
+    params = fl + yes_enc_uint(nl, 1) + yes_enc_uint(rr, 1) + yes_enc_uint(have, 1)
+    if have & 1:
+        params += yes_enc_uint(rng.choice([2, 3]), 2)
+    if have & 2:
+        params += yes_enc_uint(rng.choice([1, 2]), 1)
+    if have & 4:
+        params += yes_enc_uint(rng.choice([1, 2, 5]), 1)
+    if have & 8:
+        params += yes_enc_uint(rng.choice([1, 2, 10, 20, 31, 40]), 1)
+    salt = yes_encode64(bytes(rng.getrandbits(8) for _ in range(rng.choice([0, 8, 16, 32]))))
+    return TAG[method] + params + b"$" + salt + rng.choice([b"", b"$", b"$" + rsalt(rng, 43)])
 
 
 # ---------------------------------------------------------------- encoders
